@@ -2284,21 +2284,12 @@ func (vm *Thread) growValueStack() {
 		// offset of the frame from the beginning of the old stack
 		offset := uintptr(vm.stackOffsetFromToRaw(cf.fp, oldStackPtr))
 		cf.fp = vm.stackAddRaw(newStackPtr, offset)
-		for _, upvalue := range cf.upvalues {
-			if upvalue.IsClosed() {
-				continue
-			}
-
-			offset := vm.stackOffsetFromTo(upvalue.slot, &vm.stack[0])
-			upvalue.slot = vm.stackAdd(&newStack[0], offset)
-		}
 	}
 
-	for _, upvalue := range vm.upvalues {
-		if upvalue.IsClosed() {
-			continue
-		}
-
+	// Every open upvalue that points to this stack is on the list of open upvalues.
+	// The upvalues of the executed closures (`cf.upvalues`, `vm.upvalues`) that are still
+	// open are on that list as well, or they point to the stack of another thread.
+	for upvalue := vm.openUpvalueHead; upvalue != nil; upvalue = upvalue.next {
 		offset := vm.stackOffsetFromTo(upvalue.slot, &vm.stack[0])
 		upvalue.slot = vm.stackAdd(&newStack[0], offset)
 	}
